@@ -66,6 +66,9 @@ def gen_model(rng) -> dict:  # noqa: ANN001
     if rng.random() < 0.5:
         # a coefficient that depends on the state (positive everywhere): derivatives are N(state) x fluxes row by row
         comps.append({"kind": "reaction", "name": "vd", "fn": L(fl.lin_ma), "args": ["k1", "x1"], "stoich": {"x1": -1, "x2": {"fn": L(fl.sat1), "args": ["x0"]}}})
+        if rng.random() < 0.6:
+            # a second reaction with a state-dependent coefficient on the same variable: both count
+            comps.append({"kind": "reaction", "name": "vd2", "fn": L(fl.lin_ma), "args": ["k2", "x0"], "stoich": {"x0": -1, "x2": {"fn": L(fl.sat1), "args": ["x1"]}}})
     if rng.random() < 0.4:
         # coefficients that are exactly zero (numeric, and computed as k1 - k1 by a function): such a flux is neither producer nor consumer
         comps.append({"kind": "reaction", "name": "vz", "fn": L(fl.lin_ma), "args": ["k2", "x0"], "stoich": {"x0": -1, "x1": 0, "x2": {"fn": L(fl.zero1), "args": ["k1"]}}})
